@@ -1,6 +1,7 @@
 package main
 
 import (
+	"bytes"
 	"encoding/json"
 	"flag"
 	"fmt"
@@ -55,6 +56,8 @@ func main() {
 		cmdReplay(os.Args[2:])
 	case "exec":
 		cmdExec(os.Args[2:])
+	case "checkone":
+		cmdCheckOne(os.Args[2:])
 	case "selftest":
 		cmdSelftest(os.Args[2:])
 	case "gen":
@@ -125,6 +128,62 @@ func cmdExec(args []string) {
 	}
 	b, _ := json.Marshal(eo)
 	os.Stdout.Write(b)
+}
+
+// freshProcess is set in a `checkone` child: the scenario's calls are the first
+// ones this process makes, so nothing an earlier call left behind can explain
+// a wrong value.
+var freshProcess bool
+
+// cmdCheckOne evaluates one scenario with its property's oracle in this (fresh)
+// process and prints the violations as JSON.
+func cmdCheckOne(args []string) {
+	if len(args) < 1 {
+		usage()
+	}
+	freshProcess = true
+	sc := loadScenario(args[0])
+	p := getProp(sc.Property)
+	p.Prepare(sc.Seed, "replay")
+	st := newStats()
+	vs := p.Check(sc, st)
+	b, _ := json.Marshal(vs)
+	os.Stdout.Write(b)
+}
+
+// checkInFreshProcess runs the oracle of sc in a fresh OS process.
+func checkInFreshProcess(sc *Scenario) ([]Violation, string) {
+	f, err := os.CreateTemp(scratchDir(), "one-*.json")
+	if err != nil {
+		fatalInfra("scratch: %v", err)
+	}
+	f.Write(sc.JSON())
+	f.Close()
+	defer os.Remove(f.Name())
+	cmd := exec.Command(selfExe(), "checkone", f.Name())
+	cmd.Env = append(os.Environ(), "GOMAXPROCS=1")
+	var so, se bytes.Buffer
+	cmd.Stdout, cmd.Stderr = &so, &se
+	if err := cmd.Start(); err != nil {
+		fatalInfra("start checkone: %v", err)
+	}
+	done := make(chan error, 1)
+	go func() { done <- cmd.Wait() }()
+	select {
+	case err = <-done:
+	case <-time.After(120 * time.Second):
+		cmd.Process.Kill()
+		<-done
+		return nil, "timeout: no verdict within 120 s"
+	}
+	if err != nil {
+		return nil, fmt.Sprintf("checkone: %v: %s", err, firstLine(se.String()))
+	}
+	var vs []Violation
+	if err := json.Unmarshal(so.Bytes(), &vs); err != nil {
+		return nil, "checkone: unreadable verdict"
+	}
+	return vs, ""
 }
 
 func cmdReplay(args []string) {
@@ -485,4 +544,11 @@ func cmdSelftest(args []string) {
 	if bad > 0 {
 		os.Exit(2)
 	}
+}
+
+func firstLine(s string) string {
+	if i := strings.IndexByte(s, '\n'); i >= 0 {
+		return s[:i]
+	}
+	return s
 }
